@@ -325,7 +325,7 @@ theorem pick_all [Num α] (ys : List α) (ints : Option (List α)) (x : α) (w :
     have := hw s e rfl
     have hne : List.range' s (e - s) ≠ [] := by
       intro h; have := congrArg List.length h; simp at this; omega
-    simp [pick, hitOfWindow, idxList, hne]
+    simp [pick, pickAll, hitOfWindow, idxList, hne]
 
 theorem windowTW_wf (below within : α → α → Bool) (ys : List α) (x : α) :
     ∀ s e, windowTW below within ys x = some (s, e) → s < e ∧ e ≤ ys.length := by
@@ -358,8 +358,8 @@ theorem closest_spec (ys : List Rat) (ints : Option (List Rat)) (x : Rat) (s e :
   obtain ⟨r, hr, hrl, hmin⟩ := argBest_spec (fun (a b : Rat) => a < b) (fun a => lt_irrefl a)
     (fun a b c => lt_trans) (fun a b c h1 h2 => not_lt.mpr (le_trans (not_lt.mp h2) (not_lt.mp h1))) _ hne
   refine ⟨s + r, ?_, Nat.le_add_right _ _, by omega, ?_⟩
-  · simp only [pick, rat_lt]
-    rw [hr]
+  · simp only [pick, pickClosest, rat_lt]
+    rw [hr]; rfl
   · intro k hk hsk
     have hk' : k - s < ((slice ys s e).map (absDiff x)).length := by omega
     have hmem : ((slice ys s e).map (absDiff x))[k - s] ∈ (slice ys s e).map (absDiff x) := List.getElem_mem hk'
@@ -378,8 +378,8 @@ theorem largest_spec (ys ints : List Rat) (x : Rat) (s e : Nat) (hse : s < e) (h
   obtain ⟨r, hr, hrl, hmin⟩ := argBest_spec (fun (a b : Rat) => b < a) (fun a => lt_irrefl a)
     (fun a b c h1 h2 => lt_trans h2 h1) (fun a b c h1 h2 => not_lt.mpr (le_trans (not_lt.mp h1) (not_lt.mp h2))) _ hne
   refine ⟨s + r, ?_, Nat.le_add_right _ _, by omega, ?_⟩
-  · simp only [pick, rat_lt]
-    rw [hr]
+  · simp only [pick, pickLargest, rat_lt]
+    rw [hr]; rfl
   · intro k hk hsk
     have hk' : k - s < (slice ints s e).length := by omega
     have hmem : (slice ints s e)[k - s] ∈ slice ints s e := List.getElem_mem hk'
@@ -879,9 +879,9 @@ section
 open Fragment (Frag Ion)
 theorem covInOf_inj (m m' : FragMatch) (h : (covInOf m).key = (covInOf m').key) : covInOf m = covInOf m' := by
   unfold covInOf at *
-  simp only [covKey, CovKey.mk.injEq] at h
-  obtain ⟨h1, h2, h3, h4, _, _, _, _⟩ := h
-  simp only [covKey, h1, h2, h3, h4, CovIn.mk.injEq, and_self, and_true, CovKey.mk.injEq]
+  simp only [covKey, Prod.mk.injEq] at h
+  obtain ⟨h1, h2, h3, _⟩ := h
+  simp only [covKey, h1, h2, h3, CovIn.mk.injEq, Prod.mk.injEq, and_self, and_true]
   simp_all
 
 theorem mem_range_zip {γ : Type} (l : List γ) (j : Nat) (x : γ) :
